@@ -9,7 +9,8 @@
     repeated columns are covered by the harness only. *)
 From Coq Require Import List ZArith NArith Bool Arith Lia Permutation.
 From PQ Require Import Sort.Model Sort.ListLemmas Sort.ColProofs Sort.PageProofs
-     Sort.TypedProofs Sort.CmpProofs Sort.BufProofs Sort.OrderProofs Sort.Instances.
+     Sort.TypedProofs Sort.CmpProofs Sort.BufProofs Sort.OrderProofs Sort.Instances
+     Sort.Repeated Sort.RepeatedProofs.
 Import ListNotations.
 
 Section C10.
@@ -178,6 +179,44 @@ Proof. exact (C10_sorted_after_swaps sval lt_sval cmp_sval lt_sval_cmp cmp_sval_
 
 Print Assumptions C10_sval_less_is_comparator.
 Print Assumptions C10_sval_sorted_after_swaps.
+
+(** Repeated columns: Swap exchanges two whole rows (a row = its values with
+    their repetition and definition levels).  Less = comparator and "Page
+    keeps the rows" are NOT proved for repeated columns (see
+    C10_full_statement); they are checked by differential execution. *)
+Theorem C10_repeated_swap_exchanges_rows_partial : forall (V : Type) (c : rcol V) i j,
+  rcol_rows V (rcol_swap V c i j) = swapl (rcol_rows V c) i j /\
+  Permutation (rcol_rows V (rcol_swap V c i j)) (rcol_rows V c).
+Proof. intros. split; [apply rcol_swap_rows|apply rcol_swap_perm]. Qed.
+
+Print Assumptions C10_repeated_swap_exchanges_rows_partial.
+
+(** What is not proved, kept visible: for a repeated column set up by
+    Buffer.configure, after any history, Less is the comparator of compare.go
+    on the rows' value sequences, and Page leaves the logical rows unchanged. *)
+Definition C10_full_statement : Prop :=
+  forall (md : N) (nf desc : bool) (ops : list (rop sval)),
+    let c := fold_left (rcol_apply sval) ops (new_rcol sval md (xorb nf desc) desc) in
+    rcol_rows sval (rcol_page sval c) = rcol_rows sval c /\
+    rcol_page_rows sval c = rcol_rows sval c /\
+    forall i j, i < length (rrows sval c) -> j < length (rrows sval c) ->
+      rcol_less sval lt_sval c i j =
+      (cmp_values sval (cmp_col sval cmp_sval true desc nf)
+                  (map (rv_val sval) (nth i (rcol_rows sval c) []))
+                  (map (rv_val sval) (nth j (rcol_rows sval c) [])) <? 0)%Z.
+
+(* the repeated model on the rows of the two repaired defects: [1 3] / [1 2]
+   are ordered by their second elements; descending, the prefix [1] still
+   sorts before [1 3], and the empty list last (nulls last) *)
+Definition rv (r d : N) (v : option Z) : rval sval := mkRval r d (option_map VI v).
+Example C10_ex_repeated :
+  c10_rep 1 false false [RWrite [rv 0 1 (Some 1%Z); rv 1 1 (Some 3%Z); rv 0 1 (Some 1%Z); rv 1 1 (Some 2%Z)]] =
+  ([[rv 0 1 (Some 1%Z); rv 1 1 (Some 3%Z)]; [rv 0 1 (Some 1%Z); rv 1 1 (Some 2%Z)]],
+   [[rv 0 1 (Some 1%Z); rv 1 1 (Some 3%Z)]; [rv 0 1 (Some 1%Z); rv 1 1 (Some 2%Z)]],
+   [[false; false]; [true; false]], [[0; 1]; [-1; 0]]%Z) /\
+  snd (fst (c10_rep 1 false true [RWrite [rv 0 1 (Some 1%Z); rv 1 1 (Some 3%Z); rv 0 1 (Some 1%Z); rv 0 0 None]])) =
+  [[false; false; true]; [true; false; true]; [false; false; false]].
+Proof. vm_compute. split; reflexivity. Qed.
 
 (** * Non-vacuity: a concrete buffer.  Columns: required INT64 id, optional
     INT64 (max level 1), optional BYTE_ARRAY nested in an optional group (max
